@@ -201,6 +201,10 @@ type PID struct {
 	// this actor.
 	schedState dispatchState
 
+	// postStartOnAttach is set while PostStart waits in the mailbox for the
+	// spawn to attach the actor to the tree (see startAttached).
+	postStartOnAttach atomic.Bool
+
 	// dispatcher is cached from the actor system at construction time so
 	// the hot-path doReceive can schedule this actor without an interface
 	// assertion on every message.
@@ -312,10 +316,36 @@ func newPID(ctx context.Context, address *address.Address, actor Actor, opts ...
 		return nil, err
 	}
 
-	pid.fireSystemMessage(ctx, new(PostStart))
+	if pid.postStartOnAttach.Load() {
+		// PostStart is queued first, as always, but the actor only starts to
+		// process once the spawn has attached it to the tree (see startAttached)
+		pid.queuePostStart(ctx)
+	} else {
+		pid.fireSystemMessage(ctx, new(PostStart))
+	}
 
 	pid.startedAt.Store(time.Now().Unix())
 	return pid, nil
+}
+
+// queuePostStart puts PostStart at the head of the mailbox of a freshly
+// started actor without handing the actor to the dispatcher.
+func (pid *PID) queuePostStart(ctx context.Context) {
+	receiveContext := getContext()
+	receiveContext.build(ctx, pid.ActorSystem().NoSender(), pid, new(PostStart), true)
+	_ = pid.mailbox.Enqueue(receiveContext)
+}
+
+// startAttached hands an actor whose PostStart was queued by queuePostStart
+// to the dispatcher. The spawn calls it once the actor is attached to the tree:
+// a PostStart handler that spawns children, watches or looks actors up then
+// runs against a tree that already knows the actor. Processing PostStart
+// before the attachment let such children be inserted under a parent the tree
+// did not know yet; the insertion failed and they ran outside the tree.
+func (pid *PID) startAttached() {
+	if pid.postStartOnAttach.CompareAndSwap(true, false) && pid.schedState.TrySchedule() {
+		pid.dispatcher.schedule(pid)
+	}
 }
 
 // newRemotePID creates a lightweight PID that represents an actor on a remote node.
@@ -3560,7 +3590,7 @@ func (pid *PID) spawnChildLocal(ctx context.Context, name string, actor Actor, c
 			ctx,
 			childAddress,
 			actor,
-			pid.buildChildOptions(config)...,
+			append(pid.buildChildOptions(config), withPostStartOnAttach())...,
 		)
 		if err != nil {
 			return nil, err
